@@ -124,4 +124,18 @@ Proof.
     + right. subst P. exact H.
 Qed.
 
+(* C16: the whole reply - output lines and the state the session is left in - to `position X` then `go ...` is the
+   same whatever state the session was in before (it is computed from the two lines and the schedule alone) *)
+Theorem request_is_a_function st st' raw1 sc1 cmds1 b t raw2 sc2 cmds2 :
+  ss_phase st = Running -> ss_phase st' = Running ->
+  split_on 32 (clean_input raw1) = cmds1 -> nth_error cmds1 0 = Some s_position ->
+  play_out_position zt cmds1 = Ok (b, t) ->
+  split_on 32 (clean_input raw2) = cmds2 -> nth_error cmds2 0 = Some s_go ->
+  run zt osort st [(Line raw1, sc1); (Line raw2, sc2)] = run zt osort st' [(Line raw1, sc1); (Line raw2, sc2)].
+Proof.
+  intros R R' E1 N1 PL E2 N2. cbn [run].
+  rewrite (position_line st raw1 sc1 cmds1 b t R E1 N1 PL), (position_line st' raw1 sc1 cmds1 b t R' E1 N1 PL).
+  reflexivity.
+Qed.
+
 End S.
